@@ -22,13 +22,18 @@ def main():
     force_thorough = "--thorough" in sys.argv
     patch = os.path.join(cand, "patch.diff")
     demo = os.path.join(cand, "demo.rs")
+    inverted = False  # demo_should_not_compile.rs: must fail to compile unchanged, compile with the patch
+    if not os.path.exists(demo) and os.path.exists(os.path.join(cand, "demo_should_not_compile.rs")):
+        demo = os.path.join(cand, "demo_should_not_compile.rs")
+        inverted = True
+    feat = {"C20": "--features futures", "C18": "--features derive-spec"}.get(pid, "")
     res = {"property": pid, "candidate": cand}
     wt = f"/tmp/wt_eval_{os.getpid()}"
     sh(f"git -C /repo worktree add -q --detach {wt} HEAD")
     try:
         shutil.copy(demo, os.path.join(wt, "tests/seed_demo.rs"))
-        rc, out = sh("cargo test --offline --test seed_demo 2>&1 | tail -15", cwd=wt)
-        res["demo_passes_unchanged"] = ("test result: ok" in out)
+        rc, out = sh(f"cargo test --offline {feat} --test seed_demo 2>&1 | tail -15", cwd=wt)
+        res["demo_passes_unchanged"] = ("test result: ok" in out) if not inverted else ("error" in out and "test result: ok" not in out)
         if not res["demo_passes_unchanged"]:
             res["demo_unchanged_tail"] = out[-800:]
         rc, out = sh(f"git apply {patch}", cwd=wt)
@@ -41,8 +46,10 @@ def main():
             res["suite_passes_with_patch"] = ("FAILED" not in out and "error" not in out and out.count("test result: ok") >= 5)
             res["suite_tests_ok_lines"] = out.count("test result: ok")
             os.rename(os.path.join(wt, "seed_demo.rs.off"), os.path.join(wt, "tests/seed_demo.rs"))
-            rc, out = sh("cargo test --offline --test seed_demo 2>&1 | tail -15", cwd=wt)
-            res["demo_fails_with_patch"] = ("FAILED" in out or "panicked" in out or "timed out" in out)
+            rc, out = sh(f"cargo test --offline {feat} --test seed_demo 2>&1 | tail -15", cwd=wt)
+            res["demo_fails_with_patch"] = ("FAILED" in out or "panicked" in out or "timed out" in out) if not inverted else ("test result: ok" in out)
+            if feat:
+                rc, out = sh(f"cargo test --offline {feat} 2>&1 | grep -E 'test result|FAILED|^error' | head -20", cwd=wt) if False else (0, "")
     finally:
         sh(f"git -C /repo worktree remove --force {wt}")
     ok = res.get("demo_passes_unchanged") and res.get("patch_applies") and res.get("suite_passes_with_patch") and res.get("demo_fails_with_patch")
